@@ -1,6 +1,7 @@
 import FqModel.Proto
 import FqModel.Bits
 import FqModel.JQValue
+import FqModel.JQValueBuild
 /-! driver for C08
 
   Token formats (harness/cmd/c08/ser.go):
@@ -354,6 +355,12 @@ def stepM (ff : UInt64 → Option Bytes) (d : DV) (ops obs : List String) : Stri
   let mut diverge : Option String := none
   let mut fail : Option String := none
   let mut known : Option String := none
+  -- hypothesis NamesDistinct, validated on every serialised value (D.AddChild refuses duplicates)
+  match d with
+  | .struct fs =>
+    if !namesDistinctB (fs.map (·.1)) then
+      fail := some s!"the struct lists a member name twice in Children: length {fs.length} but its tovalue has {(objOfList fs).length} members"
+  | _ => pure ()
   for (op, ob) in ops.zip obs do
     match methodObs ff d (words op) with
     | none => return s!"BADOP op {op}"
@@ -471,6 +478,11 @@ def stepQ (ff : UInt64 → Option Bytes) (d : DV) (q : Q) (obs : String) : Strin
     -- (then the difference is one of D1-D4 by construction of the specification)
     let p2 : Option String :=
       if normObs direct == normObs plain then none
+      -- the hypothesis NamesDistinct of the method theorems, validated on every serialised tree: a
+      -- struct that lists a member name twice is outside the documented exceptions (its `specView`
+      -- is not a Go map), so no difference is excused (Props.C08.struct_indistinguishable_iff_nodup)
+      else if !d.namesDistinctDeepB then
+        some s!"v|q = {direct} and v|tovalue|q = {plain} differ, and the value has a struct that lists a member name twice in Children (no documented exception)"
       else if isUnmodelled mSpec || isUnmodelled mPlain then none
       else if normObs mSpec != normObs mPlain then none
       else some s!"v|q = {direct} and v|tovalue|q = {plain} differ outside the documented exceptions"
@@ -534,17 +546,17 @@ def cmpSnapshots (names : List Bytes) : List CmpOp → Cmp → List String
   | [], _ => []
   | op :: ops, c => match op.apply Cmp.remove c with
     | some c' => cmpSnapshot c' names :: cmpSnapshots names ops c'
-    | none => ["fatal"]
+    | none => ["fatal " ++ cmpSnapshot c names]   -- the refused call leaves the struct as it was
 
-/-- the property on an observed snapshot: the ByName answers (has, .k) agree with the children (keys) -/
+/-- the property on an observed snapshot: the ByName answers (has, .k) agree with the children (keys),
+    and keys lists no name twice -/
 def snapshotConsistent (names : List Bytes) (snap : String) : Bool :=
-  if snap == "fatal" then true else
-  match words snap with
+  match (words snap).filter (· != "fatal") with
   | [k, h, v] =>
     let keys := if k == "K-" then [] else (tailStr k).splitOn ","
     let hs := (tailStr h).toList
     let vs := (tailStr v).splitOn ","
-    hs.length == names.length && vs.length == names.length &&
+    hs.length == names.length && vs.length == names.length && keys.eraseDups.length == keys.length &&
       ((names.zip (hs.zip vs)).all (fun (n, hb, vv) =>
         let present := keys.contains (hx n)
         (hb == '1') == present && (vv != "-") == present))
@@ -564,10 +576,173 @@ def stepB (opsText obs : String) : String :=
   | some sn => s!"PROPFAIL after this AddChild/Remove history `.k`/has (ByName) disagree with keys/tovalue (Children): {sn}{div}"
   | none => if div.isEmpty then "OK" else s!"DIVERGE model={model}"
 
+/-! ### F lines: a decoder driven by its input, forced and unforced (FqModel.JQValueBuild)
+
+  `F [@note]* force=<0|1> <op tokens>`  TAB  `<done|stop> <CT>`
+      op tokens: u8 <hexname> <v> | val <hexname> <v> | st <hexname> ( … ) | ar <hexname> ( … ) | in ( … ) | errorf | fatalf |
+                 as <hexname> <v> <expect> | rm <hexname> | eof
+      CT := S<n> (<hexname> CT)*n B<m> (<hexkey> <index of the value ByName[key] points to among Children>)*m
+          | A<n> CT*n | u<dec>(.|y)
+      DIVERGE   `runDecoder .fatalf force` builds another tree / stops elsewhere
+      PROPFAIL  the OBSERVED tree has a struct whose Children repeat a name, or whose ByName does not
+                look up exactly its Children (then length / keys / `.[]` / `.k` / has tell the decode
+                value from its tovalue: Props.C08.struct_indistinguishable_iff_nodup) -/
+
+partial def pBOps : List String → Option (List BOp × List String)
+  | [] => some ([], [])
+  | ")" :: r => some ([], ")" :: r)
+  | "errorf" :: r => (pBOps r).map (fun (ops, r') => (BOp.errorf :: ops, r'))
+  | "fatalf" :: r => (pBOps r).map (fun (ops, r') => (BOp.fatalf :: ops, r'))
+  | "eof" :: r => (pBOps r).map (fun (ops, r') => (BOp.eof :: ops, r'))
+  | "u8" :: n :: v :: r =>
+    match bytesOfHex n, v.toNat?, pBOps r with
+    | some nb, some vn, some (ops, r') => some (BOp.u8 nb vn :: ops, r')
+    | _, _, _ => none
+  | "val" :: n :: v :: r =>
+    match bytesOfHex n, v.toNat?, pBOps r with
+    | some nb, some vn, some (ops, r') => some (BOp.val nb vn :: ops, r')
+    | _, _, _ => none
+  | "as" :: n :: v :: e :: r =>
+    match bytesOfHex n, v.toNat?, e.toNat?, pBOps r with
+    | some nb, some vn, some en, some (ops, r') => some (BOp.assertU8 nb vn en :: ops, r')
+    | _, _, _, _ => none
+  | "rm" :: n :: r =>
+    match bytesOfHex n, pBOps r with
+    | some nb, some (ops, r') => some (BOp.remove nb :: ops, r')
+    | _, _ => none
+  | "st" :: n :: "(" :: r =>
+    match bytesOfHex n, pBOps r with
+    | some nb, some (body, ")" :: r1) => (pBOps r1).map (fun (ops, r') => (BOp.struct nb body :: ops, r'))
+    | _, _ => none
+  | "in" :: "(" :: r =>
+    match pBOps r with
+    | some (body, ")" :: r1) => (pBOps r1).map (fun (ops, r') => (BOp.inline body :: ops, r'))
+    | _ => none
+  | "ar" :: n :: "(" :: r =>
+    match bytesOfHex n, pBOps r with
+    | some nb, some (body, ")" :: r1) => (pBOps r1).map (fun (ops, r') => (BOp.array nb body :: ops, r'))
+    | _, _ => none
+  | _ => none
+
+def indexOfName (k : Bytes) : List (Bytes × CT) → Nat → Int
+  | [], _ => -1
+  | (k', _) :: rest, i => if bytesEq k k' then i else indexOfName k rest (i + 1)
+
+partial def ctText : CT → String
+  | .struct cs bn =>
+    s!"S{cs.length}" ++ String.join (cs.map (fun f => " " ++ hx f.1 ++ " " ++ ctText f.2)) ++
+    s!" B{bn.length}" ++ String.join (bn.map (fun e => " " ++ hx e.1 ++ s!" {indexOfName e.1 cs 0}"))
+  | .array es => s!"A{es.length}" ++ String.join (es.map (fun e => " " ++ ctText e))
+  | .scalar (.uint v) none y => s!"u{v}" ++ (if y then "y" else ".")
+  | .scalar _ _ _ => "?"
+
+/-- the observed tree: both indexes of every struct as the harness read them off decode.Compound -/
+inductive OT where
+  | struct (cs : List (Bytes × OT)) (bn : List (Bytes × Int))
+  | array (es : List OT)
+  | leaf
+deriving Inhabited
+
+partial def pOT : List String → Option (OT × List String)
+  | [] => none
+  | t :: r =>
+    let rest := tailStr t
+    match headCh t with
+    | 'S' =>
+      match rest.toNat? with
+      | none => none
+      | some n =>
+        let rec go (n : Nat) (acc : List (Bytes × OT)) (r : List String) : Option (List (Bytes × OT) × List String) :=
+          if n == 0 then some (acc.reverse, r) else
+            match r with
+            | k :: r1 =>
+              match bytesOfHex k, pOT r1 with
+              | some kb, some (x, r') => go (n - 1) ((kb, x) :: acc) r'
+              | _, _ => none
+            | [] => none
+        match go n [] r with
+        | none => none
+        | some (cs, b :: r1) =>
+          if headCh b != 'B' then none else
+          match (tailStr b).toNat? with
+          | none => none
+          | some m =>
+            let rec goB (m : Nat) (acc : List (Bytes × Int)) (r : List String) : Option (List (Bytes × Int) × List String) :=
+              if m == 0 then some (acc.reverse, r) else
+                match r with
+                | k :: i :: r' =>
+                  match bytesOfHex k, i.toInt? with
+                  | some kb, some iv => goB (m - 1) ((kb, iv) :: acc) r'
+                  | _, _ => none
+                | _ => none
+            (goB m [] r1).map (fun (bn, r') => (OT.struct cs bn, r'))
+        | some (_, []) => none
+    | 'A' =>
+      match rest.toNat? with
+      | none => none
+      | some n =>
+        let rec goA (n : Nat) (acc : List OT) (r : List String) : Option (List OT × List String) :=
+          if n == 0 then some (acc.reverse, r) else
+            match pOT r with
+            | some (x, r') => goA (n - 1) (x :: acc) r'
+            | none => none
+        (goA n [] r).map (fun (es, r') => (OT.array es, r'))
+    | 'u' => some (.leaf, r)
+    | _ => none
+
+/-- the invariant, on the observation: names of Children pairwise distinct; every ByName entry points
+    to the child of that name; every child is in ByName. `none` = fine, `some why` = broken -/
+partial def otBroken : OT → Option String
+  | .leaf => none
+  | .array es => es.findSome? otBroken
+  | .struct cs bn =>
+    let names := cs.map (·.1)
+    if !namesDistinctB names then
+      some s!"a struct lists a member name twice in Children ({",".intercalate (names.map hx)}): length/keys/.[] count {names.length} members, its tovalue (a map) fewer"
+    else
+      let badEntry := bn.find? (fun e =>
+        !(decide ((0 : Int) ≤ e.2) && (match names[e.2.toNat]? with
+          | some n => bytesEq n e.1
+          | none => false)))
+      match badEntry with
+      | some e => some s!"ByName[{hx e.1}] is not the child of that name (index {e.2}): `.k`/has read ByName, keys/tovalue read Children"
+      | none =>
+        match names.find? (fun n => !(bn.any (fun e => bytesEq e.1 n))) with
+        | some n => some s!"the child {hx n} is not in ByName: has/.k miss a member that keys/tovalue list"
+        | none => cs.findSome? (fun f => otBroken f.2)
+
+def stepF (opsText obs : String) : String :=
+  match stripNotesF (words opsText) with
+  | f :: toks =>
+    let force? : Option Bool := if f == "force=1" then some true else if f == "force=0" then some false else none
+    match force?, pBOps toks with
+    | some force, some (prog, []) =>
+      let r := runDecoder .fatalf force prog
+      let model := (if r.2 then "done " else "stop ") ++ ctText r.1
+      let impl := " ".intercalate (words obs)
+      let div := if model == impl then "" else s!" ;DIVERGE model={model}"
+      match words obs with
+      | st :: treeToks =>
+        if st != "done" && st != "stop" then
+          (if st == "panic" then s!"PROPFAIL decode.Decode panicked{div}" else s!"BADOP harness: {obs}")
+        else
+        match pOT treeToks with
+        | some (ot, []) =>
+          (match otBroken ot with
+           | some why => s!"PROPFAIL {why}{div}"
+           | none => if div.isEmpty then "OK" else s!"DIVERGE model={model}")
+        | _ => "BADOP observed-tree"
+      | [] => "BADOP empty-observation"
+    | _, _ => "BADOP decoder-program"
+  | [] => "BADOP empty"
+where
+  stripNotesF (ws : List String) : List String := ws.filter (fun w => !w.startsWith "@")
+
 def stripNotes (ws : List String) : List String := ws.filter (fun w => !w.startsWith "@")
 
 def stepC08 (op obs : String) : String :=
   if op.startsWith "B " then stepB (String.ofList (op.toList.drop 2)) obs else
+  if op.startsWith "F " then stepF (String.ofList (op.toList.drop 2)) obs else
   match op.splitOn " | " with
   | [head, rest] =>
     match stripNotes (words head) with
